@@ -34,12 +34,14 @@ class Registry(object):
         self.spec_sorts = {}
         self.axioms = collections.OrderedDict()
         self.assumptions = []
+        self.uninterp = {}
         for m in self.modules:
             self.fields.update(m.fields_)
             self.contracts.update(m.contracts)
             self.classes.update(m.classes)
             self.axioms.update(m.axioms)
             self.spec_sorts.update(m.spec_sorts)
+            self.uninterp.update(m.uninterp)
             self.assumptions += m.assumptions
             if m.spec_text.strip():
                 for n in ast.parse(m.spec_text).body:
